@@ -614,8 +614,8 @@ impl<'r> Gen<'r> {
     }
 }
 
-pub const META_RECEIVERS: [&str; 30] = [
-    "S1", "S2", "S3", "S4", "S5", "S6", "S7", "S8", "S9", "S10", "S11", "S12", "S13", "N1", "N2", "Rec", "F1", "F2", "F3", "F4", "U1", "NT1", "NT2", "W1", "E1",
+pub const META_RECEIVERS: [&str; 34] = [
+    "S1", "S2", "S3", "S4", "S5", "S6", "S7", "S8", "S9", "S10", "S11", "S12", "S13", "S14", "S15", "S16", "E4", "N1", "N2", "Rec", "F1", "F2", "F3", "F4", "U1", "NT1", "NT2", "W1", "E1",
     "E2", "E3", "EH", "WR", "MP",
 ];
 
